@@ -8,6 +8,7 @@ import (
 	"go/constant"
 	"go/token"
 	"go/types"
+	"regexp"
 	"strconv"
 	"strings"
 )
@@ -321,8 +322,14 @@ func (fc *FnCtx) concat(st *State, a, b Val) Val {
 	if b.T == "emptystr" {
 		return a
 	}
-	return Val{T: "(concat " + a.T + " " + b.T + ")", S: SStr}
+	// a one-byte literal on the right: same term as a builder's WriteByte/WriteRune
+	if m := oneByteLit.FindStringSubmatch(b.T); m != nil {
+		return Val{T: "(appendbyte " + a.T + " " + m[1] + ")", S: SStr}
+	}
+	return Val{T: "(scat " + a.T + " " + b.T + ")", S: SStr}
 }
+
+var oneByteLit = regexp.MustCompile(`^\(mkstr \(store \(\(as const \(Array Int Int\)\) 0\) 0 (\d+)\) 1\)$`)
 
 func (fc *FnCtx) safetyOn() bool { return fc.scope == nil && fc.contract != nil && !fc.contract.Extern }
 
@@ -478,7 +485,7 @@ func (fc *FnCtx) trSlice(st *State, x *ast.SliceExpr) Val {
 		return base
 	}
 	if base.S == SStr {
-		return Val{T: "(substr " + base.T + " " + lo + " " + hi + ")", S: SStr, GT: base.GT}
+		return Val{T: "(ssub " + base.T + " " + lo + " " + hi + ")", S: SStr, GT: base.GT}
 	}
 	return Val{T: "(slsub " + base.T + " " + lo + " " + hi + ")", S: SSL, GT: base.GT}
 }
